@@ -125,19 +125,7 @@ def run(chk, w):
     opt_rule(chk, w, S, "C09-OPT")
 
     # ---- IDEQ
-    chk.rule("C09-IDEQ", "identifiers are matched by exact string comparison: no prefix / partial / case-insensitive comparison in the library")
-    n_cmp = 0
-    for f in P.repo_functions():
-        for c in f.calls():
-            if c.callee == "strcmp":
-                n_cmp += 1
-            elif c.callee in PREFIX_COMPARES:
-                if c.callee in ("strncmp", "memcmp") and _length_is_full(f, c):
-                    n_cmp += 1          # bounded by strlen(operand) + 1: compares the terminator too, i.e. exact
-                    continue
-                chk.violation("C09-IDEQ", f.name, c.callee, c.loc(), "%s is used to match strings: a name that merely starts with / contains a configured id would be accepted as that id" % c.callee)
-    chk.ok("C09-IDEQ", n_cmp, {"exact_comparisons": n_cmp})
-    chk.floor("string_comparisons", n_cmp, 100)
+    ideq_rule(chk, P, "C09-IDEQ", 100)
     # canary: the fixture's strncmp must be seen by the same scan
     cf = P.functions.get("vf_canary_prefix_match")
     chk.canary("prefix_compare_detected", cf is not None and any(c.callee in PREFIX_COMPARES for c in cf.calls()))
@@ -290,6 +278,25 @@ def opt_rule(chk, w, S, rid):
             chk.ok(rid, 1, {"function": f.name})
     chk.floor("optimistic_update_sites", nopt, 2)
 
+
+
+def ideq_rule(chk, P, rid, floor, only=None):
+    """shared with C14 (ids of the configuration are looked up with the same comparisons)"""
+    chk.rule(rid, "identifiers are matched by exact string comparison: no prefix / partial / case-insensitive comparison in the library")
+    n_cmp = 0
+    for f in P.repo_functions():
+        if only is not None and not only(f):
+            continue
+        for c in f.calls():
+            if c.callee in ("strcmp", "g_strcmp0", "g_str_equal"):
+                n_cmp += 1
+            elif c.callee in PREFIX_COMPARES:
+                if c.callee in ("strncmp", "memcmp") and _length_is_full(f, c):
+                    n_cmp += 1          # bounded by strlen(operand) + 1: compares the terminator too, i.e. exact
+                    continue
+                chk.violation(rid, f.name, c.callee, c.loc(), "%s is used to match strings: a name that merely starts with / contains a configured id would be accepted as that id" % c.callee)
+    chk.ok(rid, n_cmp, {"exact_comparisons": n_cmp})
+    chk.floor("string_comparisons", n_cmp, floor)
 
 
 def _length_is_full(f, c):
